@@ -29,8 +29,9 @@ type LifeCase struct {
 }
 
 type lifeConn struct {
-	c  net.Conn
-	id int
+	c       net.Conn
+	id      int
+	partial bool // a prefix of a frame has been sent: the next complete call would be garbage
 }
 
 type lifeRun struct {
@@ -106,7 +107,13 @@ func (r *lifeRun) returned() (error, bool) {
 
 func (r *lifeRun) callOn(lc *lifeConn) error {
 	lc.c.SetWriteDeadline(time.Now().Add(r.bound))
-	if _, err := lc.c.Write(append(append([]byte(nil), sentinelFrame...), 0)); err != nil {
+	frame := append(append([]byte(nil), sentinelFrame...), 0)
+	if lc.partial {
+		// complete the frame whose prefix is pending: {"method":"org.varlink.serv + ice.GetInfo"}
+		frame = append([]byte(`ice.GetInfo"}`), 0)
+		lc.partial = false
+	}
+	if _, err := lc.c.Write(frame); err != nil {
 		return fmt.Errorf("open connection #%d: write failed: %v", lc.id, err)
 	}
 	got, eof, to := readFrames(lc.c, 1, r.bound)
@@ -235,6 +242,27 @@ func (r *lifeRun) step(op LOp) error {
 			r.facts["call-while-draining"]++
 		}
 		return r.callOn(r.open[k])
+	case "call-partial":
+		// a complete call and the beginning of the next one in ONE segment: the reply comes back, the prefix stays
+		// buffered inside the service; whatever ends the connection later must still get through
+		k := pick()
+		if k < 0 || !running {
+			return nil
+		}
+		lc := r.open[k]
+		if lc.partial {
+			return r.callOn(lc) // a prefix is already pending: complete that frame instead
+		}
+		r.facts["call-partial"]++
+		lc.c.SetWriteDeadline(time.Now().Add(r.bound))
+		if _, err := lc.c.Write(append(append(append([]byte(nil), sentinelFrame...), 0), []byte(`{"method":"org.varlink.serv`)...)); err != nil {
+			return fmt.Errorf("open connection #%d: write failed: %v", lc.id, err)
+		}
+		got, eof, to := readFrames(lc.c, 1, r.bound)
+		if fr, _ := SplitFrames(got); len(fr) != 1 {
+			return fmt.Errorf("open connection #%d is not served: GetInfo got no reply (eof=%v timeout=%v)", lc.id, eof, to)
+		}
+		lc.partial = true
 	case "close", "abort":
 		k := pick()
 		if k < 0 || !running {
